@@ -34,6 +34,10 @@ def run(facts, rep, tier, ctx):
         "append_file": ("R03.1", ("target is a file",)),
         "remove_file": ("R03.2", ("target is a file",)),
         "remove_dir": ("R03.2", ("target is a directory", "directory empty")),
+        # native same-filesystem transfers (none today): the backend must place entries below a directory itself
+        "copy_file": ("R03.1", ("destination's parent",)),
+        "move_file": ("R03.1", ("destination's parent",)),
+        "move_dir": ("R03.1", ("destination's parent",)),
     }
     cnt = 0
     for o in scratch.obligations:
@@ -41,22 +45,38 @@ def run(facts, rep, tier, ctx):
             continue
         desc = o["key"].split("|")[2]
         op = desc.split(":")[0]
-        if op in want and any(("'%s'" % g) in desc for g in want[op][1]):
+        if op in want and any(("'%s" % g) in desc for g in want[op][1]):
             cnt += 1
             rep.ob(want[op][0], o["fn"], desc, o["ok"],
                    o["detail"] if o["ok"] else o["detail"] + " — this is an orphan-maker / type-changer", o["loc"])
     rep.floor("invariant-preservation obligations (MemoryFS)", cnt, 8)
-    # parent-is-directory from the path layer
-    pr = PathRules(facts, ws)
-    scratch2 = Report("y")
-    pr.table_p(scratch2, "P")
-    for o in scratch2.obligations:
-        d = o["key"].split("|")[2]
-        if "parent" in d:
-            rep.ob("R03.1", o["fn"], d, o["ok"], o["detail"], o["loc"])
-        if "remove_dir_all" in d or "only after the copy" in d:
-            # recursive removal must dispatch children by type and remove the directory last, else entries are orphaned
-            rep.ob("R03.2", o["fn"], d, o["ok"], o["detail"], o["loc"])
+    # parent-is-directory from the path layer (both worlds: the async path type has its own copy of these checks)
+    wa = World(facts, True)
+    rep.ob("R03.A", "async_vfs", "async world present", wa.present(), "", "")
+    worlds = [(ws, "")] + ([(wa, "A/")] if wa.present() else [])
+    for w_, tag in worlds:
+        pr = PathRules(facts, w_)
+        scratch2 = Report("y")
+        pr.table_p(scratch2, "P")
+        for o in scratch2.obligations:
+            d = o["key"].split("|")[2]
+            if "parent" in d or "only after the source was opened" in d:
+                # a destination created before the source is known to be a file lets a failed copy-up (overlay append_file on
+                # a lower-layer directory) shadow that directory with an empty file
+                rep.ob(tag + "R03.1", o["fn"], d, o["ok"], o["detail"], o["loc"])
+            if "remove_dir_all" in d or "only after the copy" in d:
+                # recursive removal must dispatch children by type and remove the directory last, else entries are orphaned
+                rep.ob(tag + "R03.2", o["fn"], d, o["ok"], o["detail"], o["loc"])
+    if wa.present():
+        scratch4 = Report("w")
+        c01.table_m(facts, scratch4, "M", "Mk", self_ty=wa.memory, trait="AsyncFileSystem")
+        for o in scratch4.obligations:
+            if o["rule"] != "M":
+                continue
+            desc = o["key"].split("|")[2]
+            op = desc.split(":")[0]
+            if op in want and any(("'%s" % g) in desc for g in want[op][1]):
+                rep.ob("A/" + want[op][0], o["fn"], desc, o["ok"], o["detail"], o["loc"])
     # R03.3 publication
     from . import c16
     scratch3 = Report("z")
@@ -85,6 +105,14 @@ def run(facts, rep, tier, ctx):
         c09.table_u(facts, rep, ws, rule="R03.5", only=("remove_dir", "create_dir", "create_file", "remove_file"))
         from . import c10
         c10.marker_rules(facts, rep, ws, prefix="R03.5m", only=("R10.1", "R10.3", "R10.5"))
+        # what a listing hides must be exactly what was removed: remove_dir / remove_dir_all decide emptiness and enumerate
+        # children through it, so a live child missing from the listing is orphaned by the next removal
+        c09.listing_rules(facts, rep, ws, rule="R03.5l")
+        if wa.present():
+            A = c10._Prefixed(rep, "A")
+            c09.table_u(facts, A, wa, rule="R03.5", only=("remove_dir", "create_dir", "create_file", "remove_file"))
+            c10.marker_rules(facts, A, wa, prefix="R03.5m", only=("R10.1", "R10.3", "R10.5"))
+            c09.listing_rules(facts, A, wa, rule="R03.5l")
     except ImportError:
         rep.note("overlay rules (C09) not available yet")
     rep.assume("removal of the root itself is excluded by the property")
